@@ -345,3 +345,130 @@ class layout_segment_subseg:
         # inserted-text segments (cols, offs, bytes) are not covered: their bytes are cut by calc_trim_text, which is
         # under contract for str texts only (contracts/C11_width.py)
         return both(_isnone_f(s.text), lseg_wf(s, a.text))
+
+
+# ---- StandardTextLayout.align_layout / pack / layout
+
+STL = Obj(_tl.StandardTextLayout, {})
+LAYOUT = ListOf(ListOf(SEG3))
+ALIGN = Atom("left", "center", "right", "justify")   # "justify": a representative of an unsupported alignment
+
+
+def spec_pad(align, width, lw):
+    """The statement's alignment rule: pad by exactly 0, half (rounded up) or all of the spare columns."""
+    spare = width - lw
+    return ite(either(align == "left", spare == 0), 0, ite(align == "right", spare, (spare + 1) // 2))
+
+
+def aligned_line(out_line, in_line, align, width, callee=False):
+    """out_line is in_line with the statement's padding in front (one (pad, None) segment, none when the pad is 0)."""
+    lw = colsum(in_line, n_segs(in_line))
+    pad = spec_pad(align, width, lw)
+    k1 = ite(pad != 0, 1, 0)
+    return both(implies(pad != 0, elem_is(out_line, 0, (pad, None))), same_from(out_line, k1, in_line, 0, callee),
+                colsum(out_line, n_segs(out_line)) == pad + lw)
+
+
+def _row(layout, j):
+    return Q.seq_get(layout, j)
+
+
+def _align_ens(old, s, a, result, callee=False):
+    n = Q.seq_len(a.old.segs)
+    known = either(a.align == "left", a.align == "center", a.align == "right")
+    yield "one-line-out-per-line-in", Q.seq_len(result) == n
+    if callee:
+        yield "each-line-padded-by-0-half-rounded-up-or-all-spare-columns", forall(0, n, lambda j: aligned_line(_row(result, j), _row(a.old.segs, j), a.align, a.width, True), check_empty=False)
+        yield "unknown-alignment-only-if-nothing-to-align", implies(neg(known), forall(0, n, lambda j: colsum(_row(a.old.segs, j), n_segs(_row(a.old.segs, j))) == a.width, check_empty=False))
+        return
+    j = V.arbitrary("row")
+    inr = both(0 <= j, j < n)
+    yield "each-line-padded-by-0-half-rounded-up-or-all-spare-columns", implies(inr, aligned_line(_row(result, j), _row(a.old.segs, j), a.align, a.width))
+    lw = colsum(_row(a.old.segs, j), n_segs(_row(a.old.segs, j)))
+    yield "a-line-that-fits-stays-within-the-width", implies(both(inr, lw <= a.width, known), colsum(_row(result, j), n_segs(_row(result, j))) <= a.width)
+    yield "unknown-alignment-only-if-nothing-to-align", implies(both(neg(known), inr), lw == a.width)
+
+
+def _align_inv(v):
+    j = V.arbitrary("row")
+    out, segs = v.out, v.segs
+    yield "one-line-out-per-line-done", Q.seq_len(out) == v.i_
+    if isinstance(out.seq, tuple) and not out.seq:
+        return  # the empty list at loop entry: nothing is done yet
+    yield "lines-done-are-aligned", implies(both(0 <= j, j < v.i_), aligned_line(_row(out, j), _row(segs, j), v.align, v.width))
+    yield "unknown-alignment-met-only-full-lines", implies(both(neg(either(v.align == "left", v.align == "center", v.align == "right")), 0 <= j, j < v.i_),
+                                                           colsum(_row(segs, j), n_segs(_row(segs, j))) == v.width)
+
+
+def no_shift_lines(layout):
+    """No line starts with a shift (amount, None): the lines come from calculate_text_segments, unaligned."""
+    return forall(0, Q.seq_len(layout), lambda j: neg(has_shift(_row(layout, j))), check_empty=False)
+
+
+@contract(TL + "StandardTextLayout.align_layout", property="C03", replayable=False)
+class align_layout:
+    self_shape = STL
+    params = dict(text=TEXT, width=Int, segs=LAYOUT, wrap=Atom("any", "space", "clip", "ellipsis"), align=ALIGN)
+    result = LAYOUT
+    raises = (ValueError,)
+    modifies = ()
+    ensures = staticmethod(_align_ens)
+    ensures_callee = staticmethod(lambda old, s, a, result: _align_ens(old, s, a, result, True))
+    loops = {0: Loop(invariant=_align_inv, shapes={"out": LAYOUT})}
+
+    def requires(s, a):
+        return no_shift_lines(a.segs)
+
+    def on_raise(old, s, a, exc):
+        yield "only-for-an-unknown-alignment", neg(either(a.align == "left", a.align == "center", a.align == "right"))
+
+
+def exists(lo, hi, fn):
+    """Some integer j with lo <= j < hi satisfies fn(j) (dual of pyvc.values.forall, same treatment of side facts)."""
+    return neg(forall(lo, hi, lambda j: neg(fn(j)), check_empty=False))
+
+
+def row_width(layout, j):
+    """line_width of line j of a layout (the columns of its segments, a leading shift ignored)."""
+    return spec_line_width(_row(layout, j))
+
+
+def _pack_ens(old, s, a, result, callee=False):
+    lay = a.old.layout
+    n = Q.seq_len(lay)
+    yield "layout-has-a-line", n > 0
+    all_below = forall(0, n, lambda k: row_width(lay, k) < a.maxcol, check_empty=False)
+    attained = either(result == 0, exists(0, n, lambda k: row_width(lay, k) == result))
+    if callee:
+        yield "maxcol-as-soon-as-a-line-reaches-it", implies(neg(all_below), result == a.maxcol)
+        yield "else-the-widest-line", implies(all_below, both(result >= 0, attained, forall(0, n, lambda k: row_width(lay, k) <= result, check_empty=False)))
+        return
+    j = V.arbitrary("row")
+    inr = both(0 <= j, j < n)
+    yield "maxcol-as-soon-as-a-line-reaches-it", implies(both(inr, row_width(lay, j) >= a.maxcol), result == a.maxcol)
+    yield "else-at-least-as-wide-as-every-line", implies(both(all_below, inr), row_width(lay, j) <= result)
+    yield "else-exactly-the-widest-line-or-zero", implies(all_below, both(result >= 0, attained))
+
+
+def _pack_inv(v):
+    j = V.arbitrary("row")
+    lay = v.layout
+    yield "widest-so-far-not-negative", v.maxwidth >= 0
+    yield "lines-so-far-below-maxcol-and-covered", implies(both(0 <= j, j < v.i_), both(row_width(lay, j) < v.maxcol, row_width(lay, j) <= v.maxwidth))
+    yield "widest-so-far-is-some-lines-width-or-zero", either(v.maxwidth == 0, exists(0, v.i_, lambda k: row_width(lay, k) == v.maxwidth))
+
+
+@contract(TL + "StandardTextLayout.pack", property="C03", replayable=False)
+class pack:
+    self_shape = STL
+    params = dict(maxcol=Int, layout=LAYOUT)
+    result = Int
+    raises = (ValueError,)
+    raises_iff = {ValueError: lambda s, a: Q.seq_len(a.layout) == 0}
+    modifies = ()
+    ensures = staticmethod(_pack_ens)
+    ensures_callee = staticmethod(lambda old, s, a, result: _pack_ens(old, s, a, result, True))
+    loops = {0: Loop(invariant=_pack_inv)}
+
+    def on_raise(old, s, a, exc):
+        yield "only-for-an-empty-layout", Q.seq_len(a.layout) == 0
